@@ -449,8 +449,14 @@ def texts_for(tier: str, seed: int, prop: str) -> tuple[list[str], dict]:
     edge += ["a = { " + q + bs + q + ".." + q + "a" + q + " }", "a = { " + q + "a" + q + ".." + q + bs + q + " }",
              "a = { " + q * 3 + ".." + q + "a" + q + " }", "a = { " + q + bs + q + q + ".." + q + "a" + q + " }",
              "a = { " + chr(34) + bs + chr(34) + " }", "a = { " + q + bs + bs + q + ".." + q + "z" + q + " }"]
+    # nesting beyond CPython's recursion limit, in the scanner (groups, PUSH, tagged groups, unclosed) and in the
+    # grammar parser (prefix chains, long flat sequences) and in the optimizer (postfix chains): a grammar error, never
+    # a RecursionError
+    edge += ["a = { " + "(" * 3000 + "b" + ")" * 3000 + " }", "a = { " + "(" * 700 + "b",
+             "a = { " + "PUSH(" * 500 + '"b"' + ")" * 500 + " }", "a = { " + "#t = (" * 600 + "b" + ")" * 600 + " }",
+             "a = { " + "!" * 1500 + "b }", "a = { " + " ~ ".join(["b"] * 2000) + " }\nb = { \"x\" }",
+             "a = { b" + "?" * 3000 + " }\nb = { \"x\" }"]
     if tier == "thorough":
-        edge.append("a = { " + "(" * 3000 + "b" + ")" * 3000 + " }")
         # every truncation of the bundled grammars
         for t in bundled:
             step = max(1, len(t) // 400)
